@@ -717,7 +717,7 @@ def methods_of(cn):
                M_('isprismatic', 'isprismatic', lambda x: x.isprismatic, single('AttributeError')),
                M_('isrevolute', 'isrevolute', lambda x: x.isrevolute, single('AttributeError')), M_('isunit', 'isunit', lambda x: x.isunit),
                M_('exp()', 'exp', lambda x: x.exp(), single('ValueError')),
-               M_('unit', 'unit', lambda x: x.unit, single(('ValueError', 'TypeError')))]
+               M_('unit', 'unit', lambda x: x.unit)]                 # branches on len(self) == 1 since fix 4908bfb
     if cn == 'Twist3':
         ms += [M_('se3()', 'se3', lambda x: x.se3()), M_('SE3()', 'SE3', lambda x: x.SE3(), single('ValueError')),
                M_('theta()', 'theta', lambda x: x.theta(), 'acc_first'), M_('pitch()', 'pitch', lambda x: x.pitch(), 'acc_first'),
@@ -776,6 +776,10 @@ def parse_acc(s, M):
     return ('ok', nums)
 
 
+# sites whose sequence defect was repaired: their cells stay in the grid under a key no stale known entry can match
+REPAIRED_SITES = {'SMTwist.unit': 'SMTwist.unit[seq-branch-4908bfb]', 'Twist2.unit': 'Twist2.unit[seq-branch-4908bfb]'}
+
+
 def method_grid(ctx, MT, census_out=None):
     for _ in range(ctx.n(1, 8)):
         method_grid_pool(ctx, MT, census_out)
@@ -787,6 +791,7 @@ def method_grid_pool(ctx, MT, census_out=None):
         A = [elem(cn, rng) for _ in range(NMAX)]
         for label, attr, f, shape, cat in methods_of(cn):
             site = f"{definer(cn, attr)}.{attr}"
+            site = REPAIRED_SITES.get(site, site)
             what = f"{cn}.{label}" + (f" (defined by {site})" if not site.startswith(cn + '.') else '')
             X5 = mk(cn, A)
             refs_r = [call(lambda: f(x)) for x in singles(X5)]
